@@ -109,7 +109,25 @@ func hashDigits(s string) string {
 	return string(b)
 }
 
-func runCLIOnce(cfg zzsim.Config, s *scn.Scenario, root string, args []string, workers int, fsf []scn.FSFault) (o cliObs) {
+// sortedPaths: the scenario's paths, longest first (computed once per scenario)
+var sortedPathsOf *scn.Scenario
+var sortedPaths []string
+
+func pathsOf(s *scn.Scenario) []string {
+	if sortedPathsOf != s {
+		var paths []string
+		for i := range s.Inputs {
+			paths = append(paths, s.Inputs[i].Path)
+		}
+		sort.Slice(paths, func(i, j int) bool { return len(paths[i]) > len(paths[j]) })
+		sortedPathsOf, sortedPaths = s, paths
+	}
+	return sortedPaths
+}
+
+// only >= 0: the tree holds just input `only` (a solo run): no other file is
+// looked for afterwards.
+func runCLIOnce(cfg zzsim.Config, s *scn.Scenario, root string, args []string, workers int, fsf []scn.FSFault, only int) (o cliObs) {
 	var mu sync.Mutex
 	var ff []zzsimos.FSFault
 	for _, f := range fsf {
@@ -144,11 +162,7 @@ func runCLIOnce(cfg zzsim.Config, s *scn.Scenario, root string, args []string, w
 	zzsim.Deadlock = false
 	o.budget = zzsim.BudgetAborts > aborts0
 	o.exited, o.code = zzsimos.Exited()
-	var paths []string
-	for i := range s.Inputs {
-		paths = append(paths, s.Inputs[i].Path)
-	}
-	sort.Slice(paths, func(i, j int) bool { return len(paths[i]) > len(paths[j]) })
+	paths := pathsOf(s)
 	o.stdout = strings.ReplaceAll(string(zzsimos.Stdout.Bytes()), root+string(filepath.Separator), "")
 	for _, l := range strings.Split(string(zzsimos.Stderr.Bytes()), "\n") {
 		if l != "" {
@@ -156,7 +170,11 @@ func runCLIOnce(cfg zzsim.Config, s *scn.Scenario, root string, args []string, w
 		}
 	}
 	o.files = map[string]string{}
-	for _, p := range paths {
+	look := paths
+	if only >= 0 {
+		look = []string{s.Inputs[only].Path}
+	}
+	for _, p := range look {
 		if b, err := os.ReadFile(filepath.Join(root, p)); err == nil {
 			o.files[p] = string(b)
 		}
@@ -206,7 +224,7 @@ func runC11CLI(s *scn.Scenario, res *scn.Result) {
 
 	// ---- phase 1: the whole program under the seeded scheduler
 	markSites(s.Sched.SiteClass)
-	got := runCLIOnce(simConfig(s), s, root, cliArgs(s, root, paths), s.Workers, s.FSFaults)
+	got := runCLIOnce(simConfig(s), s, root, cliArgs(s, root, paths), s.Workers, s.FSFaults, -1)
 	fsFired := zzsimos.FSFired()
 	faulted := false
 	for k, n := range fsFired {
@@ -228,7 +246,7 @@ func runC11CLI(s *scn.Scenario, res *scn.Result) {
 			res.Infra = "cannot create the scratch file tree: " + err.Error()
 			return
 		}
-		solo[i] = runCLIOnce(refConfig(s), s, r, cliArgs(s, r, []string{"."}), 1, nil)
+		solo[i] = runCLIOnce(refConfig(s), s, r, cliArgs(s, r, []string{"."}), 1, nil, i)
 		if solo[i].stuck {
 			res.Infra = "a task blocked outside the simulator in a solo run"
 			return
@@ -411,7 +429,7 @@ func runIsoCLI(s *scn.Scenario, k int, res *scn.Result) {
 		res.Infra = err.Error()
 		return
 	}
-	o := runCLIOnce(refConfig(s), s, r, cliArgs(s, r, []string{"."}), 1, nil)
+	o := runCLIOnce(refConfig(s), s, r, cliArgs(s, r, []string{"."}), 1, nil, k)
 	res.Steps = zzsim.Steps
 	res.PipeHashes = []string{o.hash()}
 	res.Trace = []string{o.endText(), "stdout: " + short(o.stdout, 300), "stderr: " + short(strings.Join(o.stderr, " | "), 300), "file: " + short(o.files[s.Inputs[k].Path], 300)}
